@@ -107,6 +107,24 @@ func runC05(w *W) {
 			if l.GetTimeZhiIndex() != slot || l.GetTimeGanIndex() != (ex%10%5*2+slot)%10 {
 				bad("time", fmt.Sprintf("%d/%d", l.GetTimeGanIndex(), l.GetTimeZhiIndex()), fmt.Sprintf("%d/%d", (ex%10%5*2+slot)%10, slot))
 			}
+			// --- hour objects: Lunar.GetTime() and, from receivers at the day's first moment and at 23:xx, every entry of
+			// Lunar.GetTimes() (the list must not depend on the receiver's own time of day)
+			if lt := l.GetTime(); lt.GetZhiIndex() != slot || lt.GetGanIndex() != (ex%10%5*2+slot)%10 || lt.GetGanZhi() != ganS[(ex%10%5*2+slot)%10]+zhiS[slot] {
+				bad("LunarTime(GetTime)", lt.GetGanZhi(), ganS[(ex%10%5*2+slot)%10]+zhiS[slot])
+			}
+			if (t.h == 23 || t.h == 0) && t.m == 0 && t.s == 0 {
+				for k, lt := range l.GetTimes() {
+					ks := k % 12
+					stemDay := dayIdx
+					if k == 12 {
+						stemDay = (dayIdx + 1) % 60 // the 23:00 entry belongs to the next day's rat hour
+					}
+					wg := (stemDay%10%5*2 + ks) % 10
+					if lt.GetZhiIndex() != ks || lt.GetGanIndex() != wg {
+						bad(fmt.Sprintf("LunarTime(GetTimes[%d])", k), lt.GetGanZhi(), ganS[wg]+zhiS[ks])
+					}
+				}
+			}
 			// --- year pillar, three conventions
 			yNew := mod(l.GetYear()-4, 60)
 			if l.GetYearGanIndex() != yNew%10 || l.GetYearZhiIndex() != yNew%12 {
